@@ -411,6 +411,49 @@ def einsumCustom (fixed : Bool) (ins : List (List Idx)) (out : List Idx) (path :
 
 end custom
 
+/-! ### decidable form of the hypotheses of `C05b.einsum_correct`
+    (used by the harness to count how many of the programs it runs lie inside the theorem) -/
+
+section hyp
+variable {R : Type} [Zero R] [Add R] [Mul R]
+
+/-- no repeated label, axes of the label size or of size 1, every label with its full size somewhere -/
+def invCheck (sizes : Idx → Nat) (data : List (List Idx × Tensor R)) : Bool :=
+  let dim := fun (p : List Idx × Tensor R) (l : Idx) => ((p.1.zip p.2.shape).lookup l).getD 1
+  data.all (fun p => !hasDup p.1 && p.1.length == p.2.shape.length &&
+      p.1.all (fun l => dim p l == sizes l || dim p l == 1)) &&
+  (labelSet (data.map (·.1)).flatten).all (fun l => data.any fun p => p.1.contains l && dim p l == sizes l)
+
+/-- "in" when the call satisfies the hypotheses of `einsum_correct` (consistent shapes, the path reduces the operands
+    to a single one laid out along the output labels), otherwise "out:<which hypothesis fails>" -/
+def hypCheck (fixed : Bool) (ins : List (List Idx)) (out : List Idx) (path : List (List Nat)) (procOrder : List Idx)
+    (ts : List (Tensor R)) : String :=
+  let shapes := ts.map (·.shape)
+  match replaceEllipsis ins out ((shapes.headD []).length) with
+  | none => "out:ellipsis"
+  | some (ins1, out1, extra) =>
+    let sm := sizeMap ins1 shapes
+    if !invCheck (lookupD sm 1) (ins1.zip ts) then "out:shapes"
+    else
+      let rm := removeIdx sm extra
+      let ins2 := ins1.map fun t => t.filter fun l => !rm.contains l
+      let out2 := out1.filter fun l => !rm.contains l
+      let args2 : Except String (List (Tensor R)) := (ins1.zip ts).mapM fun p =>
+        reshapeT p.2 (((p.1.zip p.2.shape).filter fun q => !rm.contains q.1).map (·.2))
+      match args2 with
+      | .error _ => "out:reshape"
+      | .ok a2 =>
+        match orderedIndices ins2 out2 procOrder with
+        | none => "out:order"
+        | some ord =>
+          let key := if fixed then rankFixed ord else rankOf ord
+          match loop (lookupD sm 1) key out2 path (ins2.zip a2) with
+          | .error e => "out:" ++ e
+          | .ok [(o, _)] => if o = out2 then "in" else "out:final-order"
+          | .ok _ => "out:path"
+
+end hyp
+
 /-! ### Gaussian integers (complex128 operands with integer parts) -/
 
 structure GI where
@@ -481,6 +524,17 @@ def handle : List String → Option String
     else
       let ts ← parseOpsG ops
       pure (showResG (einsumCustom (fixed == "1") ins out path proc ts))
+  | "hyp" :: fixed :: kind :: ins :: out :: path :: proc :: ops => do
+    let ins ← parseTerms ins
+    let out ← parseNats out
+    let path ← parseNatss path
+    let proc ← parseNats proc
+    if kind == "Z" then
+      let ts ← parseOpsZ ops
+      pure (hypCheck (fixed == "1") ins out path proc ts)
+    else
+      let ts ← parseOpsG ops
+      pure (hypCheck (fixed == "1") ins out path proc ts)
   | "ref" :: kind :: ins :: out :: ops => do
     -- reference semantics on an ellipsis-free expression
     let ins ← parseTerms ins
